@@ -65,6 +65,23 @@ def main():
             chk.violation("Gillespie_complex_contagion|%s|%s" % (p["kind"], p.get("cls", "")),
                           p["detail"] + (" after history %r" % (p["history"],) if "history" in p else ""),
                           {"scenario": scn[t["sc"]], "task": t, "problem": p})
+    # rounding: rates that are not exactly representable, unbounded horizon, runs that must terminate
+    ftasks = []
+    for i, s in enumerate(scn):
+        if s["model"] not in complexc.ABSORBING:
+            continue
+        allst = [st for st in itertools.product(s["statuses"], repeat=s["n"]) if sg.get(i, {}).get(tuple(st))]
+        for st0 in rng.sample(allst, min(len(allst), 3 if chk.tier == "quick" else 12)):
+            for unit in (0.3, 0.1, 1.0 / 3.0, 0.7):
+                ftasks.append({"sc": i, "st0": st0, "unit": unit, "seeds": list(range(chk.seed * 100, chk.seed * 100 + (6 if chk.tier == "quick" else 40)))})
+    fruns = 0
+    for t, r in zip(ftasks, common.pool_map(complexc.float_probe, ftasks)):
+        fruns += r["runs"]
+        chk.cov["evaluations"] += r["runs"]
+        chk.cov["traces_validated_against_impl"] += r["runs"]
+        for p in r["problems"]:
+            chk.violation("Gillespie_complex_contagion|%s|%s" % (p["kind"], p["cls"]), p["detail"], {"scenario": scn[t["sc"]], "task": t, "problem": p})
+    chk.part("seeded runs with non-dyadic rates and unbounded horizon, validated as terminated paths of the emitted transition system", runs=fruns, tasks=len(ftasks))
     if len(done) < len(tasks):
         chk.note("stopped after %d of %d scenarios because enough failing scenarios were collected" % (len(done), len(tasks)))
     t, r = done[len(done) // 2]
